@@ -13,6 +13,7 @@ import (
 	"strings"
 	"sync"
 	"testing/iotest"
+	"time"
 
 	"github.com/go-json-experiment/json"
 	"github.com/go-json-experiment/json/jsontext"
@@ -227,6 +228,16 @@ func checkOutput(path string, o Opts, sh shape, out []byte, err error, x expect)
 
 // StrCase is an arbitrary byte string with an option set. Name additionally
 // uses the string as a struct field name (json tag) when it is eligible.
+// zoneT prints nothing but the zone abbreviation of its time.
+type zoneT struct {
+	F time.Time `json:",format:'-MST'"`
+}
+
+// zoneNamedT uses a named layout that ends in the zone abbreviation.
+type zoneNamedT struct {
+	F time.Time `json:",format:RFC822"`
+}
+
 type StrCase struct {
 	S    []byte `json:"s"`
 	O    Opts   `json:"opts"`
@@ -449,6 +460,26 @@ func strPaths(c StrCase, s string, wf bool, clean, qMin, qOpt string) error {
 		b, err = json.Marshal(struct{ F textM }{textM{c.S}}, jopts...)
 		if e := checkOutput("Marshal(MarshalText output in struct field)", o, shapeField, b, err, x); e != nil {
 			return e
+		}
+	}
+
+	// 6. the string as the zone name that a time layout prints (format tag):
+	// formatted times are JSON strings like any other
+	if s != "" {
+		tm := time.Unix(0, 0).In(time.FixedZone(s, 3600))
+		for _, z := range []struct {
+			v      any
+			prefix string
+		}{{zoneT{tm}, "-"}, {zoneNamedT{tm}, "01 Jan 70 01:00 "}} {
+			x2 := x
+			x2.decoded = z.prefix + x.decoded
+			if x.exact != "" {
+				x2.exact = `"` + z.prefix + x.exact[1:]
+			}
+			b, err := json.Marshal(z.v, append(append([]json.Options(nil), jopts...), json.ExperimentalSupportFormatTag(true))...)
+			if e := checkOutput(fmt.Sprintf("Marshal(%T: time layout printing the zone name)", z.v), o, shapeField, b, err, x2); e != nil {
+				return e
+			}
 		}
 	}
 
